@@ -7,7 +7,9 @@ mod collect;
 mod fam_altform;
 mod fam_builtin;
 mod fam_sink;
+mod fam_srcops;
 mod fam_decl;
+mod fam_dedup;
 mod generated {
     pub mod decls;
 }
@@ -103,6 +105,9 @@ fn main() {
         "chars" => fam_builtin::run_chars(&a),
         "varint" => fam_varint::run(&a),
         "sink" => fam_sink::run(&a),
+        "dedup" => fam_dedup::run(&a),
+        "srcops" => fam_srcops::run(&a),
+        "limits" => fam_srcops::run_limits(&a),
         "altform" => fam_altform::run(&a),
         "decl" => fam_decl::run_decl(&a),
         "hist" => fam_decl::run_hist(&a),
